@@ -215,6 +215,9 @@ structure Scenario where
   opts : List OptItem
   /-- `objno` given and larger than the header's number of objectives -/
   objnoTooBig : Bool
+  /-- `tech:writemodelonly=<file>` (synonyms `justwriteprob`, `justwritemodel`) given and parsed:
+      `exportFileMode() == 2`, "do not solve, just export" -/
+  justExport : Bool
   dims : Dims
   /-- what `builder.num_algebraic_cons()/num_vars()` return if `NLProblemBuilder::OnHeader` throws
       half-way (only used for a fault at stage `populate`) -/
@@ -242,6 +245,9 @@ deriving Repr, DecidableEq
 inductive Outcome where
   /-- no stub: usage / version / option list on stdout, `return result_code_` (= 0) -/
   | info
+  /-- `RunFromNLFile` returns without `Solve()`/`Report()` (`tech:writemodelonly`): no `.sol`, no
+      message, exit 0 -/
+  | silent
   /-- `.sol` written, exit 0; `echoed`: the message was also printed on stdout -/
   | sol (f : SolFile) (echoed : Bool)
   /-- no `.sol` requested (no `-AMPL`, `wantsol&1 = 0`): result only on stdout (if not
@@ -354,6 +360,8 @@ inductive Ending where
   | raised (ampl : Bool) (wantsol : Nat) (st : Stage) (r : Raise)
   /-- `RunFromNLFile` reaches `HandleSolution` with the solver's answer -/
   | finished (ampl : Bool) (wantsol : Nat)
+  /-- `exportFileMode() == 2`: the model was exported, `Solve()` and `Report()` are skipped -/
+  | exported (ampl : Bool) (wantsol : Nat)
 deriving Repr, DecidableEq
 
 /-- The control flow of `RunBackendApp` → `Run` → `Init` → `RunFromNLFile` up to the first
@@ -384,6 +392,11 @@ def ending (sc : Scenario) : Ending :=
   | none =>
   if sc.objnoTooBig then .raised ampl w .options .optionError else
   -- body … report
+  -- populate … extras (ExportModel runs in the extras stage)
+  match faultBefore sc 10 with
+  | some (st, r) => .raised ampl w st r
+  | none =>
+  if sc.justExport then .exported ampl w else
   match sc.fault with
   | some (st, r) =>
     -- StdBackend::ReportSuffixes swallows every std::exception (adds a warning)
@@ -393,6 +406,7 @@ def ending (sc : Scenario) : Ending :=
 /-- What the process leaves behind, given how the run ends. -/
 def conclude (sc : Scenario) : Ending → Outcome
   | .info => .info
+  | .exported _ _ => .silent
   | .raised a w st r => fail a w sc st r
   | .finished a w =>
     -- ReportSolution2AMPL → HandleSolution(SolveCode(), msg, x or 0, pi or 0, obj)
@@ -441,6 +455,7 @@ def Ending.cause : Ending → Option Cause
   | .info => none
   | .raised _ _ _ r => some r.cause
   | .finished _ _ => some .none
+  | .exported _ _ => some .none
 
 def firstCause (sc : Scenario) : Option Cause := (ending sc).cause
 
@@ -450,6 +465,7 @@ def cannotWrite (sc : Scenario) : Ending → Bool
   | .info => false
   | .raised _ _ st _ => !st.handlerAvailable || !sc.out.writable
   | .finished _ _ => !sc.out.writable
+  | .exported _ _ => false
 
 /-- **The property** for one run that ends as `e`: the outcome is one of the two allowed ones.
 * a *complete* `.sol` whose count lines equal the NL header's (and whose value blocks are empty
@@ -479,6 +495,7 @@ instance (sc : Scenario) (o : Outcome) : Decidable (Good sc o) := by
 
 def Outcome.toStr : Outcome → String
   | .info => "info exit=0"
+  | .silent => "silent exit=0"
   | .sol f e => s!"sol code={f.code} ncons={f.ncons} nduals={f.nduals} nvars={f.nvars} nprimals={f.nprimals} complete={if f.complete then 1 else 0} echoed={if e then 1 else 0} exit=0"
   | .stdoutOnly c s => s!"stdout code={c} shown={if s then 1 else 0} exit=0"
   | .stderrExit st => s!"stderr exit={st}"
